@@ -444,44 +444,42 @@ Fixpoint starts_with (p s : list ascii) : bool :=
   | _ :: _, [] => false
   end.
 
-(* `(\d+)-\d+/\d+` right after "bytes "; [star]: also accept "*" as the total
-   (RFC 7233 unknown complete length), which the regexp in the code does not *)
-Definition match_cr_at (star : bool) (s : list ascii) : option (list ascii) :=
+(* digits "-" digits "/" then a digit or a star, right after "bytes " (the star is the
+   RFC 7233 unknown complete length, read since the repair fixes/C18-7) *)
+Definition match_cr_at (s : list ascii) : option (list ascii) :=
   let '(d1, r1) := span_digits s in
   match d1, r1 with
   | _ :: _, "-"%char :: r2 =>
       let '(d2, r3) := span_digits r2 in
       match d2, r3 with
       | _ :: _, "/"%char :: c :: _ =>
-          if is_digit c || (star && Ascii.eqb c "*"%char) then Some d1 else None
+          if is_digit c || Ascii.eqb c "*"%char then Some d1 else None
       | _, _ => None
       end
   | _, _ => None
   end.
 
 (* re.FindStringSubmatch: leftmost match anywhere in the header value *)
-Fixpoint find_cr (star : bool) (s : list ascii) : option (list ascii) :=
+Fixpoint find_cr (s : list ascii) : option (list ascii) :=
   match s with
   | [] => None
   | _ :: r =>
-      match (if starts_with (list_ascii_of_string "bytes ") s then match_cr_at star (skipn 6 s) else None) with
+      match (if starts_with (list_ascii_of_string "bytes ") s then match_cr_at (skipn 6 s) else None) with
       | Some d => Some d
-      | None => find_cr star r
+      | None => find_cr r
       end
   end.
 
 (* GetRangeStart: 0 unless 206; -1 for multipart/byteranges, for a Content-Range
    the regexp does not match, and when the start does not fit an int64 *)
-Definition range_start_gen (star : bool) (status : Z) (multipart : bool) (cr : list ascii) : Z :=
+Definition range_start (status : Z) (multipart : bool) (cr : list ascii) : Z :=
   if negb (status =? 206) then 0
   else if multipart then -1
-  else match find_cr star cr with
+  else match find_cr cr with
        | None => -1
        | Some d => match parse_int64 d with Some v => v | None => -1 end
        end.
 
-Definition range_start := range_start_gen false.      (* the code *)
-Definition range_start_rfc := range_start_gen true.   (* also "bytes a-b/*" *)
 
 Record throttle_cfg := mkTC { tc_bytes : list ascii; tc_bw : Z }.
 Record halt_cfg := mkHC { hc_byte : Z; hc_dur : Z; hc_count : Z }.
